@@ -13,13 +13,16 @@ PROPS_MODULE = 'Props.C10'
 THEOREMS = ['utf8_valid_spec', 'utf8_lossy_is_utf8', 'utf8_lossy_id', 'utf8_lossy_fuel_suffices',
             'char_from_u32_spec', 'csi_numbers_range',
             'stored_scalar_fill', 'fill_stores_iff', 'stored_scalar_clipboard', 'stored_scalar_icy_first',
-            'stored_scalar_icy_cont', 'strings_utf8_icy', 'strings_utf8_icy_identity', 'stored_scalar_glyphs', 'glyphs_keys_are_indices', 'glyphs_complete',
-            'stored_scalar_font_lookups', 'stored_scalar_hexmacro', 'strings_utf8_hexmacro',
+            'stored_scalar_icy_cont', 'strings_utf8_icy', 'strings_utf8_icy_identity', 'stored_scalar_glyphs', 'glyphs_keys_below_max', 'stored_scalar_glyphs_checked',
+            'glyphs_keys_are_indices', 'glyphs_complete', 'font_from_bytes_total', 'stored_scalar_loaded_font',
+            'stored_scalar_created_font', 'stored_scalar_font_lookups', 'stored_scalar_hexmacro', 'strings_utf8_hexmacro',
             'clipboard_total', 'icy_cells_total', 'glyphs_total',
             'fix_is_local_clipboard', 'fix_is_local_icy', 'fix_is_local_glyphs',
             'fill_before_fix_refuted', 'clipboard_before_fix_refuted', 'icy_before_fix_refuted',
             'glyphs_before_fix_refuted', 'strings_before_fix_refuted']
-SWEEP_LEMMAS = ['TextSitesProofs.hex_table_positions (every position in the regenerated HEX_TABLE is below 16)']
+SWEEP_LEMMAS = ['TextSitesProofs.hex_table_positions (every position in the regenerated HEX_TABLE is below 16)',
+                'TextSitesProofs.max_glyphs_le / max_glyphs_eq (the regenerated fonts::MAX_GLYPHS is 0xD800: every index below it is a char, '
+                'and the snapshot loop differs from the merged one only from the first surrogate on)']
 TRUSTED = ['Coq 8.16.1 kernel + vm_compute (model evaluation, witnesses); no axioms (Print Assumptions: closed)',
            'translator/gen_textsites.py + vlib/rustsrc.py: tokenizer, function finder, call-argument extraction; it decides from the '
            'source which conversion (checked / unchecked) each site calls, pins the converted expression, and takes a census of every '
@@ -36,7 +39,9 @@ UNMODELLED = ['the PNG / zlib / base64 container of IcyDraw files and the chunk 
               'the ANSI parser outside the CSI parameter accumulator, DECFRA and the hex-macro recorder (C01/C09); stage S still '
               'feeds random streams and scans every cell',
               'allocation behaviour for huge announced sizes (clipboard width*height, font length): C02/C03',
-              'BitFont::calculate_checksum value, PSF1/plain-font header handling (C17); only the chars the loops look up are modelled',
+              'BitFont: of from_bytes / load_psf1 / load_psf2 / load_plain_font / create_8 / from_basic the Ok/Err decision, `length` and '
+              'the glyph map are modelled; name, size, font_type, the checksum VALUE and the bytes written by convert_to_u8_data / '
+              'to_psf2_bytes are not (C17): of the three `0..length` loops only the chars they look up',
               'editor-side producers of clipboard data']
 ASSUMPTIONS = ['a `char` is identified with its code point and a String with its bytes',
                'in the release profile char::from_u32_unchecked / String::from_utf8_unchecked materialise their argument unchanged '
@@ -47,7 +52,9 @@ RULE = ('per site: the boundary code points 0, 0x7F, 0x80, 0x7FF, 0x800, 0xD7FF,
         '0x10000, 0x10FFFF, 0x110000, 2^31-1 (and beyond, for saturation) plus seeded random values over the whole numeric range of '
         'the field, embedded in otherwise random well-formed and malformed inputs (rectangles, clipboard records, layer chunks with '
         'short/long/invisible/end-of-line cells, truncations, length fields, titles that are valid / truncated / overlong / surrogate '
-        'UTF-8); fonts from 0 to 2^17 glyphs around 55296 and 57344; hex macros with repeats, lower-case and non-ASCII digits. '
+        'UTF-8); fonts from 0 to 2^17 glyphs around 55296 and 57344 (PSF1, PSF2, plain, create_8, from_basic), PSF2 headers announcing up '
+        'to 2^17 glyphs, and random font files: short / truncated headers, height 0, incomplete last glyph, charsize != height, wrong '
+        'version / headersize / length fields; hex macros with repeats, lower-case and non-ASCII digits. '
         'A case is non-trivial when it reaches a conversion; distinct = distinct inputs.')
 
 IMPORTS = 'From IE Require Import Run.RunC10.\nLocal Open Scope N_scope.'
@@ -262,6 +269,57 @@ def gen_fonts(ctx):
         cs.append((rng.choice(['psf2', 'create8', 'psf1']), rng.randrange(0, 1 << 17), rng.choice([1, 3, 4]), -1))
     return cs
 
+def psf2_header(version, headersize, length, charsize, height, width=8):
+    return struct.pack('<IIIIIIII', 0x864ab572, version, headersize, 0, length, charsize, height, width)
+
+FONT_BYTES_FIXED = [
+    (-1, b''), (-1, b'\x36'), (-1, b'\x36\x04'), (-1, b'\x36\x04\x00'), (-1, b'\x72\xb5\x4a'), (-1, b'\x72\xb5\x4a\x86'),
+    (-1, b'\x36\x04\x00\x00'), (-1, b'\x36\x04\x00\x00\x01\x02\x03'),          # PSF1 height 0 without / with data (used to hang)
+    (-1, b'\x36\x04\x01\x03' + bytes(range(1, 12))),                                # PSF1 mode 512, incomplete last glyph (used to panic)
+    (-1, psf2_header(0, 32, 0, 0, 0)[:31]), (-1, psf2_header(0, 32, 0, 0, 0)), (-1, psf2_header(1, 32, 0, 0, 0)),
+    (-1, psf2_header(0, 32, 2, 3, 3) + bytes(range(1, 7))), (-1, psf2_header(0, 32, 2, 3, 2) + bytes(range(1, 7))),
+    (-1, psf2_header(0, 32, 2, 3, 4) + bytes(range(1, 7))), (-1, psf2_header(0, 32, 2, 3, 0) + bytes(range(1, 7))),
+    (-1, psf2_header(0, 32, 3, 2, 2) + bytes(range(1, 6))), (-1, psf2_header(0, 36, 1, 2, 2) + bytes(range(1, 7))),
+    (-1, psf2_header(0, 38, 0, 0, 2) + bytes(range(1, 7))), (-1, psf2_header(0, 39, 0, 0, 2) + bytes(range(1, 7))),
+    (-1, psf2_header(0, 0, 1, 38, 2) + bytes(range(1, 7))), (-1, psf2_header(0, 0xFFFFFFFF, 0xFFFFFFFF, 0xFFFFFFFF, 2)),
+    (-1, psf2_header(0, 32, 55296, 0, 16)), (-1, psf2_header(0, 32, 55297, 0, 16)), (-1, psf2_header(0, 32, 0xFFFFFFFF, 0, 16)),
+    (-1, psf2_header(0, 32, 0, 7, 0xFFFFFFFF)),
+    (-1, bytes(256)), (-1, bytes(255)), (-1, bytes(range(256)) * 2), (-1, b'\x01' * 257),
+    (0, b''), (0, b'\x01\x02\x03'), (1, b''), (3, bytes(range(10))), (3, bytes(range(11))), (255, bytes(300)), (16, bytes(range(256)) * 17),
+]
+
+def gen_font_bytes(rng):
+    """(h, data): h < 0 -> BitFont::from_bytes(data); else create_8 / from_basic with height h"""
+    rb = lambda n: bytes(rng.randrange(256) for _ in range(n))
+    r = rng.random()
+    if r < 0.12:
+        return -1, (rng.choice([b'', b'\x36\x04', b'\x72\xb5\x4a\x86', b'\x72\xb5']) + rb(rng.randint(0, 3)))[:rng.randint(0, 5)]
+    if r < 0.32:                                                  # PSF1: any mode, height 0..20, data of any length
+        return -1, b'\x36\x04' + bytes([rng.choice([0, 1, 2, 3, 5, rng.randrange(256)]), rng.choice([0, 1, 2, 3, 8, 16, rng.randrange(21)])]) + rb(rng.choice([0, 1, 7, 16, 33, rng.randint(0, 600)]))
+    if r < 0.67:                                                  # PSF2
+        length = rng.choice([0, 1, 2, 3, 5, 17, 256, rng.randint(0, 40)])
+        charsize = rng.choice([0, 1, 2, 3, 8, 16, rng.randint(0, 20)])
+        height = rng.choice([charsize, charsize, charsize, 0, 1, charsize + 1, max(charsize - 1, 0), rng.randint(0, 40)])
+        extra = rng.choice([0, 0, 0, 1, 4, rng.randint(0, 9)])
+        hs = 32 + extra
+        body = rb(extra + length * charsize)
+        q = rng.random()
+        version = 0
+        if q < 0.08: version = rng.choice([1, 2, 0xFFFFFFFF])
+        elif q < 0.16: hs = rng.choice([0, 31, 33, hs + 1, hs - 1 if extra else 64, 0xFFFFFFFF, len(body) + 32, len(body) + 33])
+        elif q < 0.24: body = body[:rng.randint(0, len(body))] if rng.random() < 0.5 else body + rb(rng.randint(1, 5))
+        elif q < 0.30: length, charsize, body = rng.choice([55295, 55296, 55297, 65536, 0xFFFFFFFF]), 0, rb(extra); height = rng.choice([0, 1, 16])
+        elif q < 0.34: length, charsize = rng.choice([(0xFFFFFFFF, 0xFFFFFFFF), (0x10000, 0x10000), (0, 0xFFFFFFFF)])
+        d = psf2_header(version, hs, length, charsize, height) + body
+        if q > 0.95: d = d[:rng.randint(4, 31)]
+        return -1, d
+    if r < 0.80:                                                  # plain: a multiple of 256 bytes, or not
+        n = rng.choice([256, 512, 768, 1024, 4096, rng.randint(5, 700)])
+        d = bytearray(rb(n))
+        if d[:2] == b'\x36\x04': d[0] = 0
+        return -1, bytes(d)
+    return rng.choice([0, 1, 2, 3, 8, 16, 32, rng.randrange(256)]), rb(rng.choice([0, 1, 255, 256, 512, rng.randint(0, 700)]))
+
 # --------------------------------------------------------------------------- decoding the observations
 def grid_of(events, w, h):
     g = {}
@@ -363,18 +421,31 @@ def corr_cases(ctx):
     def cmp_font(case):
         mode, n, h, decl = case
         def f(r, m):
-            if r[0] != 'ok' or m is None or m[0] != 0 or r[1][0] != 0: return 'differ'
+            if r[0] != 'ok' or not m: return 'differ'
             v = r[1]
+            if m[0] != 0 or v[0] != 0:                     # Err(..) <-> Rejected; the model never says Panic / Diverge here
+                return None if (m == [1] and v == [1]) else 'impl %r model %r' % (v[:3], m[:3])
             length = v[1]
-            if [v[2], v[4], v[5], v[6], v[8], v[10]] != m[1:7]: return 'impl %r model %r' % ([v[2], v[4], v[5], v[6], v[8], v[10]], m[1:7])
+            if [v[1], v[2], v[4], v[5], v[6], v[8], v[10]] != m[1:8]: return 'impl %r model %r' % ([v[1], v[2], v[4], v[5], v[6], v[8], v[10]], m[1:8])
             if v[3] != 0: return 'invalid keys'
             if v[7] != length * h or v[9] != 32 + length * h: return 'output sizes'
+            if m[8] != length: return 'the checksum loop of the model looks up %d chars, length is %d' % (m[8], length)
             return None
         return f
+    MODES = {'psf2': 0, 'psf1': 1, 'plain': 2, 'create8': 3, 'basic': 3}
     for case in gen_fonts(ctx):
         mode, n, h, decl = case
-        length = decl if decl >= 0 else (n if mode == 'psf2' else 256)
-        cs.append(('c10font %s %d %d %d' % case, 'run_font %d %d %d' % (n, h, length), cmp_font(case)))
+        cs.append(('c10font %s %d %d %d' % case, 'run_font %d %d %d (%d)%%Z' % (MODES[mode], n, h, decl), cmp_font(case)))
+    def cmp_font_bytes(r, m):
+        if r[0] != 'ok' or not m: return 'differ'
+        v = r[1]
+        if m[0] != 0 or v[0] != 0:
+            return None if (m == [1] and v == [1]) else 'impl %r model %r' % (v[:3], m[:3])
+        if [v[1], v[2], v[4], v[5], v[6]] != m[1:6]: return 'impl %r model %r' % ([v[1], v[2], v[4], v[5], v[6]], m[1:6])
+        if v[3] != 0: return 'invalid keys'
+        return None
+    for h, d in FONT_BYTES_FIXED + [gen_font_bytes(rng) for _ in range(ctx.n(250, 4000))]:
+        cs.append(('c10fontbytes %d %s' % (h, hx(d)), 'run_font_bytes (%d)%%Z %s' % (h, nlist(d)), cmp_font_bytes))
     # hex macros
     def cmp_hex(r, m):
         if r[0] != 'ok' or m is None: return 'differ'
@@ -463,6 +534,10 @@ def search_cases(ctx, broken):
         cs.append(('icy-string', 'c10icy ' + hx(icy_file([('FONT_1', struct.pack('<I', len(name)) + name + bytes(4096)),
                                                               ('LAYER_0', layer_payload(gen_title(rng), 1, 1, cell_short(65)))])), None))
     for case in gen_fonts(ctx): cs.append(('font', 'c10font %s %d %d %d' % case, None))
+    for h, d in FONT_BYTES_FIXED: cs.append(('font', 'c10fontbytes %d %s' % (h, hx(d)), None))
+    for _ in range(cap(200, 3000)):
+        h, d = gen_font_bytes(rng)
+        cs.append(('font', 'c10fontbytes %d %s' % (h, hx(d)), None))
     for _ in range(cap(200, 3000)): cs.append(('hexmacro', 'c10hexmacro ' + hx(('1;0;1!z' + gen_hexmacro(rng)).encode('utf-8')), None))
     for _ in range(cap(300, 4000)): cs.append(('stream', 'c10stream ' + hx(gen_stream(rng).encode('utf-8')), None))
     for _ in range(cap(200, 3000)):
@@ -508,6 +583,9 @@ def oracle(site, case, r):
     if kind == 'c10font' and v[0] == 0:
         if v[3] != 0: return fail('invalid-char', '%d glyph keys are not scalar values' % v[3])
         if v[11] != 1: return fail('invalid-utf8', 'font name is not UTF-8')
+    if kind == 'c10fontbytes' and v[0] == 0:
+        if v[3] != 0: return fail('invalid-char', '%d glyph keys are not scalar values' % v[3])
+        if v[7] != 1: return fail('invalid-utf8', 'font name is not UTF-8')
     if kind == 'c10hexmacro' and v[2] != 0: return fail('invalid-char', '%d cells hold a non-scalar value' % v[2])
     if kind in ('c10stream', 'c10parser') and v[1] != 0: return fail('invalid-char', '%d cells hold a non-scalar value' % v[1])
     return None
@@ -549,13 +627,15 @@ LEVEL_TEXT = ('Machine-checked proof (Coq, closed under the global context) that
               'numbers into chars or input bytes into Strings, whatever is stored is a Unicode scalar value / well-formed UTF-8, for ALL '
               'inputs: every digit string of the DECFRA fill parameter (the saturating accumulator is proved to stay in 0..2^31-1), every '
               'clipboard byte string, every IcyDraw LAYER_n and LAYER_n~k payload (header, short/long/invisible/end-of-line cells, any '
-              'length), every font data length and height, every PSF2 glyph count, every hex-macro text. UTF-8 is specified as the '
+              'length), every font data length and height, every byte string handed to BitFont::from_bytes (PSF1 / PSF2 / plain: it returns Ok or '
+              'Err, keys and `length` stay below MAX_GLYPHS = 0xD800), every hex-macro text. UTF-8 is specified as the '
               'encoding of scalar values; the validator is proved sound AND complete against it, String::from_utf8_lossy (as a model '
               'of std, tied to std on every run) is proved to always yield UTF-8 and to be the identity on UTF-8. Which conversion each '
               'site calls (checked or unchecked) is re-read from the Rust source on every run together with a census of every '
               '`unsafe`/unchecked call of the crate, so a new or re-opened unchecked conversion breaks the proof. The theorems are '
-              'about the code after five fix commits (fill, clipboard, IcyDraw cells, IcyDraw strings, fonts); the pre-fix '
-              'expressions are refuted in Coq and their witnesses are replayed on the real code on every run. Full level.')
+              'about the merged tree: five C10 fix commits (fill, clipboard, IcyDraw cells, IcyDraw strings, fonts) plus the fonts.rs '
+              'commits of C17 (glyph loop bounded by height / data / MAX_GLYPHS, load_psf2 header validation), whose statements are '
+              'token-pinned; the pre-fix expressions (for fonts: the pre-fix loop) are refuted in Coq and their witnesses are replayed on the real code on every run. Full level.')
 LEVEL_NOTE = ('Trusted: Coq kernel + vm_compute; the python translator (which conversion is called where, census of unsafe code); '
               'Model/Unicode.v as description of std (differentially tied); the hand-written site loops (differentially tied through the '
               'public API, including hand-built .icy containers); safety of safe Rust for chars/Strings not built by unchecked calls.')
